@@ -105,6 +105,48 @@ class _Json:
         return fn()
 
 
+NONDET_LIMIT = 5
+
+
+class NondetSet(set):
+    """Stand-in for `set` whose iteration order is chosen by the solver: CPython's order depends on the hash seed of
+    the process, so every order is possible.  Each iteration forks over all permutations (sets of <= NONDET_LIMIT
+    elements; larger ones make the shape inconclusive).  Membership, len, and set algebra are the real ones."""
+
+    def __iter__(self):
+        import z3
+        items = sorted(set.__iter__(self), key=repr)
+        ctx = E.Ctx.cur
+        if ctx is None or len(items) < 2:
+            return iter(items)
+        if len(items) > NONDET_LIMIT:
+            raise E.Inconclusive(f'iteration over a set of {len(items)} elements (more than {NONDET_LIMIT}! orders)')
+        pool, order = list(items), []
+        while len(pool) > 1:
+            k = ctx.choose(z3.BitVec(f'iteration_order_{ctx.pos}', E.W), rng=(0, len(pool) - 1))
+            order.append(pool.pop(k))
+        order.append(pool[0])
+        return iter(order)
+
+
+NONDET_SET_MODULES = ['bespokeasm.assembler.engine', 'bespokeasm.assembler.assembly_file', 'bespokeasm.assembler.model',
+                      'bespokeasm.assembler.model.instruction_set', 'bespokeasm.assembler.model.operand_set',
+                      'bespokeasm.assembler.preprocessor', 'bespokeasm.assembler.line_object.instruction_line',
+                      'bespokeasm.assembler.line_object.factory', 'bespokeasm.assembler.label_scope',
+                      'bespokeasm.assembler.memory_zone.manager', 'bespokeasm.assembler.pretty_printer.listing']
+
+
+def install_nondet_sets():
+    """C15: every `set(...)` built in these modules iterates in an order the solver chooses"""
+    import importlib
+    for name in NONDET_SET_MODULES:
+        try:
+            m = importlib.import_module(name)
+        except ImportError:
+            continue
+        m.set = NondetSet
+
+
 def install():
     global _installed
     if _installed:
